@@ -349,7 +349,8 @@ func (r *runner) c01(c *vcase, raw json.RawMessage, rd *ws.Rendered, targets []s
 // as "unknown" or as "invalid type: X is a field" when protoc skips a non-type and then finds nothing
 // is C15's business (same verdict); here any error about the reference is accepted.
 var refReasons = []string{"unknown type", "unknown extendee", "unknown request type", "unknown response type",
-	"invalid type", "invalid request type", "invalid response type", "extendee is invalid", "is not defined"}
+	"invalid type", "invalid request type", "invalid response type", "extendee is invalid", "is not defined",
+	"unknown extension", "invalid extension"}
 
 // reasonPatterns: for each rule, substrings one of which must occur in some error the stable
 // compiler reports for a workspace that breaks exactly that rule (the compiler's own wording;
@@ -398,6 +399,8 @@ var reasonPatterns = map[string][]string{
 	"V-ext-dup":              {"extension with tag"},
 	"V-p3-ext":               {"extend blocks in proto3 can only be used to define custom options"},
 	"V-closed-enum-implicit": {"cannot use closed enum"},
+	"V-opt-extendee":         {"should extend", "but instead extends"},
+	"V-opt-dup":              {"non-repeated option field", "already set"},
 }
 
 // ---------------------------------------------------------------------------------------------
